@@ -1,5 +1,6 @@
 import IbModel.Proofs.Combine
 import IbModel.Proofs.CombInst
+import IbModel.Proofs.CombTransfer
 import IbModel.Proofs.VecSplit
 import IbModel.Model.Program
 /-!
@@ -364,8 +365,8 @@ theorem lawful_option_semigroup (p : Val → Val → Val) (hp : ∀ a b d, p (p 
          finish := fin, build := fun xs => xs.foldl (optAdd p) .none } : VCombiner) Eq :=
   lawful_optCombiner p hp fin
 
-/-- `Min`, `Max` and the harness's total variants: `Val.le` is a total preorder (`Val.le_total`,
-    `Val.le_trans`, from `String.le_total/le_trans`), the choice "smaller/larger, ties → the later element"
+/-- `Min`, `Max` and the harness's total variants: `Val.le` is a total order (`Val.le_total`,
+    `Val.le_trans`, `Proofs/ValOrder.lean`), the choice "smaller/larger, ties → the later element"
     is associative (`pickMin_assoc`, `pickMax_assoc`), so they are lawful on the nose for ALL values.
     (`finish` of `min`/`max` on the empty fold is `err` = the documented `expect` panic, in both modes.) -/
 theorem lawful_min : LawfulCombiner Comb.min.toCombiner Eq := by
@@ -402,6 +403,39 @@ theorem lawful_maxT : LawfulCombiner Comb.maxT.toCombiner Eq := by
     rw [← maxAdd_eq]; rfl
   rw [e]; exact lawful_optCombiner pickMax pickMax_assoc _
 
+/-- `TopK` — the pipeline model's TopK is C06's LITERAL model of the real code (`topKBy`: min-heap as
+    ascending list, the `len₁ + len₂ ≤ k` extend path, the two-pointer merge, the real `build_from_group`)
+    over the harness order `Val.le`, with the heap travelling as a `Val` list. `Val.le` (by `toInt`, ties by
+    the structural order `Val.cmp`) is total, transitive and ANTISYMMETRIC on all of `Val`
+    (`Val.le_totalOrder`), so C06's `topKBy_mergeable'` transfers through the encoding
+    (`Proofs/CombTransfer.lean`): lawful on the nose, for every `k` (0 included) and ALL values. -/
+theorem lawful_topK (k : Nat) : LawfulCombiner (Comb.topK k).toCombiner Eq := topKVal_lawful k
+
+/-- every combiner of the program library is lawful on the nose -/
+theorem lawful_all (c : Comb) : LawfulCombiner c.toCombiner Eq := by
+  cases c with
+  | count => exact lawful_count
+  | sum => exact lawful_sum
+  | min => exact lawful_min
+  | max => exact lawful_max
+  | minT => exact lawful_minT
+  | maxT => exact lawful_maxT
+  | distinctSet => exact lawful_distinctSet
+  | topK k => exact lawful_topK k
+
+/-- the order TopK / Min / Max use is a total order on ALL values — in particular antisymmetric, which the
+    former tie-break on the encoded text was not (`cons 1 0` and `cons 1 nil` have the same text) -/
+theorem val_le_total_order :
+    (∀ a b d : Val, Val.le a b = true → Val.le b d = true → Val.le a d = true) ∧
+    (∀ a b : Val, Val.le a b = true ∨ Val.le b a = true) ∧
+    (∀ a b : Val, Val.le a b = true → Val.le b a = true → a = b) :=
+  ⟨fun _ _ _ => Val.le_trans, Val.le_total, fun _ _ => Val.le_antisymm⟩
+
+/-- witness: the two ill-formed values the encoded text could not separate are strictly ordered now -/
+example : Val.enc (.cons (.int 1) (.int 0)) = Val.enc (.cons (.int 1) .nil) ∧
+    Val.le (.cons (.int 1) (.int 0)) (.cons (.int 1) .nil) = true ∧
+    Val.le (.cons (.int 1) .nil) (.cons (.int 1) (.int 0)) = false := by decide
+
 /-- the outputs are the mathematical ones -/
 theorem count_value (xs : List Val) :
     Comb.count.toCombiner.finish (Comb.count.toCombiner.foldAdd Comb.count.toCombiner.create xs) = .int xs.length := by
@@ -418,6 +452,69 @@ theorem distinctSet_value (xs : List Val) :
       (Comb.distinctSet.toCombiner.foldAdd Comb.distinctSet.toCombiner.create xs) = Val.ofList (addKeys [] xs) := by
   show Comb.distinctSet.toCombiner.foldAdd (Val.ofList []) xs = _
   rw [distinct_foldAdd]
+
+/-- TopK returns the `k` largest values in descending order (w.r.t. `Val.le`): the descending sort of the
+    input, truncated to `k` — for every `k` (0 and `k >` the number of values included) -/
+theorem topK_value (k : Nat) (xs : List Val) :
+    (Comb.topK k).toCombiner.finish
+      ((Comb.topK k).toCombiner.foldAdd (Comb.topK k).toCombiner.create xs)
+      = Val.ofList ((xs.mergeSort (fun a b => Val.le b a)).take k) :=
+  topKVal_value k xs
+
+/-- the sort used in the statement really is the descending sort: a permutation of the input in which every
+    element is `≥` all later ones -/
+theorem topK_value_sort_is_sort (xs : List Val) :
+    (xs.mergeSort (fun a b => Val.le b a)).Pairwise (fun a b => Val.le b a = true) ∧
+      (xs.mergeSort (fun a b => Val.le b a)).Perm xs :=
+  ⟨Combiners.mergeSort_sorted Val.le_totalOrder.flip xs, List.mergeSort_perm _ _⟩
+
+/-! ## the derived `top_k_per_key(k)` = `combine_values(TopK::new(k))` -/
+
+/-- per key, on ANY partition list: the `k` largest values of that key (over all partitions) in descending
+    order; keys without a row have no entry -/
+theorem top_k_per_key_value (k : Nat) (ps : List (List Val)) (key : Val) :
+    lookupKV (decAccs (combineMerge (Comb.topK k).toCombiner
+        (ps.map (combineLocalPairs (Comb.topK k).toCombiner)))) key =
+      if key ∈ ps.flatten.map Val.key
+      then some (Val.ofList
+        ((((ps.flatten.filter (fun r => r.key == key)).map Val.value).mergeSort
+          (fun a b => Val.le b a)).take k))
+      else none := by
+  rw [cv_value (lawful_topK k), topK_value]
+
+/-- the lifted entry point (`group_by_key().combine_values_lifted(TopK)`): the same, over all of the key's groups -/
+theorem top_k_lifted_value (k : Nat) (ps : List (List Val)) (key : Val) :
+    lookupKV (decAccs (combineMerge (Comb.topK k).toCombiner
+        (ps.map (combineLocalGroups (Comb.topK k).toCombiner)))) key =
+      if key ∈ ps.flatten.map Val.key
+      then some (Val.ofList
+        ((((ps.flatten.filter (fun r => r.key == key)).map (fun r => r.value.toList)).flatten.mergeSort
+          (fun a b => Val.le b a)).take k))
+      else none := by
+  rw [lifted_value (lawful_topK k), topK_value]
+
+/-- `combine_globally(TopK::new(k), fan_out)` on ANY partition list and every fan-out: one row, the `k`
+    largest of all rows in descending order -/
+theorem top_k_globally_value (k : Nat) (fo : Option Nat) (ps : List (List Val)) :
+    stepSubPar ps (combineGlobalNode (Comb.topK k).toCombiner fo) =
+      pure [[Val.ofList ((ps.flatten.mergeSort (fun a b => Val.le b a)).take k)]] := by
+  rw [cg_par_value (lawful_topK k) fo ps, topK_value]
+
+/-- witnesses (tests, not the theorems): ties between structurally different values of equal `toInt`
+    (`I2`, `S"ab"`, `L[7,7]` all have `toInt = 2`) follow the variant rank `I < S < L`; three partitions,
+    one empty; `k = 0` gives the empty list. (`decide` cannot unfold `List.mergeSort`, so these literals stay
+    on the `extend` path of `merge`; the two-pointer path is covered by the theorems and the correspondence run.) -/
+example :
+    combineMerge (Comb.topK 4).toCombiner
+      ([[Val.pair (.int 1) (.int 2), Val.pair (.int 1) (.str "ab")], [],
+        [Val.pair (.int 1) (Val.ofList [.int 7, .int 7]), Val.pair (.int 1) (.int 1)]].map
+          (combineLocalPairs (Comb.topK 4).toCombiner))
+      = [Val.pair (.int 1) (Val.ofList [Val.ofList [.int 7, .int 7], .str "ab", .int 2, .int 1])] := by decide
+example :
+    combineMerge (Comb.topK 0).toCombiner
+      ([[Val.pair (.int 1) (.int 2)], [Val.pair (.int 1) (.int 3)]].map
+          (combineLocalPairs (Comb.topK 0).toCombiner))
+      = [Val.pair (.int 1) .nil] := by decide
 
 /-! ## the derived `distinct_per_key` = `group_by_key` → `combine_values_lifted(DistinctSet)` → ungroup -/
 
